@@ -298,6 +298,47 @@ def r07_6(run):
     run.ob("R07.6", loc(fp, graphs[0]), fp.short, "in-place target's gradient nulled before the placeholder graph is built", ok,
            "self.null_grad(...) dominates DuplicatingGraph(...)" if ok else
            "a mutated tensor keeps the gradient of its pre-mutation value (make_placeholder_tensor asserts on it)")
+    # the public null_grad() only nulls gradients: it touches view information solely on behalf of internal callers
+    ngf = anchor_func(run, f"{TENSOR}.null_grad")
+    cfgn = build_cfg(run, ngf)
+    private = [a.arg for a in ngf.node.args.kwonlyargs + ngf.node.args.args if a.arg.startswith("_")]
+    others = [s for s in own_nodes(ngf.node) if isinstance(s, (ast.Assign, ast.AugAssign, ast.Delete)) and any(
+        isinstance(t, ast.Attribute) and norm(t.value) == "self" and t.attr not in ("_grad", "_view_grad")
+        for t in (s.targets if not isinstance(s, ast.AugAssign) else [s.target]))]
+    for s in others:
+        ns = cfgn.node_for(s)
+        tests = [n for n, st in cfgn.stmt.items() if cfgn.label[n] == "If" and isinstance(st, ast.Name) and st.id in private]
+        ok = any(cfgn.edge_dominates(t, "true", ns) for t in tests)
+        run.ob("R07.6", loc(ngf, s), ngf.short, f"`{norm(s)[:40]}` in null_grad happens only for internal callers", ok,
+               f"guarded by the private flag {private}" if ok else
+               "a user's null_grad() on a live view changes its base/graph links: the view's .grad reads None from then on even after the "
+               "base's gradient is recomputed")
+    # (a') a tensor whose graph was cleared loses its lingering base whenever it enters a tracked op (view op or not)
+    for lp in loops:
+        if not isinstance(lp.target, ast.Name):
+            continue
+        v = lp.target.id
+        stale = [s for s in own_nodes(lp) if isinstance(s, ast.Assign) and any(norm(t) == f"{v}._base" for t in s.targets)
+                 and isinstance(s.value, ast.Constant) and s.value.value is None]
+        if not stale:
+            continue
+        for base_is_none in (True, False):
+            assume = dict(base_assume)
+            assume.update({f"isinstance({v}, Tensor)": True, f"{v}._base is not None and {v}._creator is None": True,
+                           "base is None": base_is_none, "base is not None": not base_is_none})
+            cfgs = build_cfg(run, fi, assume)
+            head = cfgs.node_for(lp)
+            ns = {cfgs.node_for(s) for s in stale}
+            ns.discard(None)
+            ok, wit = True, None
+            for succ in cfgs.succ_by_kind(head, "loop"):
+                w = cfgs.all_paths_hit(succ, ns, exits=(head,)) if ns else [succ, head]
+                if w is not None:
+                    ok, wit = False, w
+            run.ob("R07.6", loc(fi, stale[0]), fi.short, f"stale base of an input is dropped for {'non-view' if base_is_none else 'view'} ops alike", ok,
+                   "the reset is reached on every iteration for a tensor with a lingering base and no creator" if ok else
+                   f"for {'non-view' if base_is_none else 'view'} ops a graph-cleared view keeps its stale base: its gradient is derived from the wrong tensor "
+                   f"/ reads None in the next iteration", path=cfgs.path_text(wit) if wit else None)
     # null_grad itself nulls both
     ng_f = anchor_func(run, f"{TENSOR}.null_grad")
     cfg = build_cfg(run, ng_f)
